@@ -337,6 +337,39 @@ Proof.
 Qed.
 
 (* ---- the state a run leaves whose trailing deletions may all have failed ---- *)
+Lemma landed_post c nb A w0 e' ec ec' X ns (P : fname -> dfile -> pbatch -> Prop) :
+  ext (DP c nb A) ec ec' -> LInv c nb w0 (e_disk ec') -> landed X ns ec e' ec' ->
+  (forall n f p, In n X -> ~ In n ns -> lookup n (dk_files (e_disk e')) = Some f -> df_pend f = Some p ->
+      P n f p \/ unlisted (e_disk e') n) ->
+  LInv c nb w0 (sh (e_disk e')) /\
+  (forall n f p, lookup n (dk_files (e_disk e')) = Some f -> df_pend f = Some p -> P n f p \/ unlisted (e_disk e') n) /\
+  sp_of (sh (e_disk e')) = sp_of (e_disk ec').
+Proof.
+  intros Hext HL (ecp & HR & Eec & Ha) Hcls.
+  destruct HR as (Hrel & Hfp).
+  assert (Hd' : e_disk ec' = del_disk ns (e_disk ecp)) by (rewrite Eec; apply delete_files_disk; exact Hfp).
+  assert (Hp : pfx ec ec' (e_disk ecp)).
+  { eapply pfx_more; [apply pfx_end; exact Ha|]. rewrite Eec. apply sh_delete_files. exact Hfp. }
+  destruct (ext_pfx _ _ _ _ Hext Hp) as (HDp & _).
+  rewrite Hd' in HL. destruct (undelete_sh c nb w0 (e_disk ecp) ns HL HDp) as (HL2 & Hsp2 & Hunl).
+  pose proof HL as (_ & _ & _ & HN & Hmeta & _). pose proof (DIs_NoDup _ _ _ HDp) as ND.
+  split; [|split].
+  + rewrite (drel_sh_eq _ _ _ Hrel). exact HL2.
+  + intros n f p Hl Hp'. destruct (mem_name n ns) eqn:En.
+    * right. apply mem_name_spec in En. intros ps s Hm Hs.
+      assert (Eps : ps = persistent w0).
+      { destruct Hrel as (_ & M & _). rewrite M in Hm. destruct (del_disk_meta ns (e_disk ecp)) as (M1 & _).
+        rewrite <- M1, Hmeta in Hm. inversion Hm; reflexivity. }
+      subst ps. apply (Hunl n En s Hs).
+    * assert (Hin : In n X).
+      { destruct (mem_name n X) eqn:Ex; [apply mem_name_spec; exact Ex|]. exfalso.
+        destruct Hrel as (H1 & _ & _ & _ & _ & H6). destruct (lrel_lookup_some n _ _ f H1 Hl) as (g & Hg & _).
+        assert (Hpg : df_pend g = None). { apply (HN n g). rewrite (del_disk_lookup ns _ n ND), En. exact Hg. }
+        rewrite (H6 n f g Hl Hg (not_mem_name _ _ Ex)) in Hp'. congruence. }
+      apply (Hcls n f p Hin (not_mem_name _ _ En) Hl Hp').
+  + rewrite (drel_sh_eq _ _ _ Hrel), Hd'. exact Hsp2.
+Qed.
+
 Lemma Rd_post c nb A w0 e' ec ec' X ns (P : fname -> dfile -> pbatch -> Prop) :
   ext (DP c nb A) ec ec' -> LInv c nb w0 (e_disk ec') -> Rd X ns ec e' ec' ->
   (forall n f p, In n X -> ~ In n ns -> lookup n (dk_files (e_disk e')) = Some f -> df_pend f = Some p ->
@@ -352,28 +385,7 @@ Proof.
     + intros n f p Hl Hp. assert (Hin : In n (rems ns X)) by (apply (drel_stale_ok _ _ _ Hrel HN n f Hl); congruence).
       apply (Hcls n f p (rems_incl ns X n Hin) (rems_in ns X n Hin) Hl Hp).
     + rewrite (drel_sh_eq _ _ _ Hrel). apply (sp_of_sh_clean c nb w0 _ HL).
-  - destruct HR as (Hrel & Hfp).
-    assert (Hd' : e_disk ec' = del_disk ns (e_disk ecp)) by (rewrite Eec; apply delete_files_disk; exact Hfp).
-    assert (Hp : pfx ec ec' (e_disk ecp)).
-    { eapply pfx_more; [apply pfx_end; exact Ha|]. rewrite Eec. apply sh_delete_files. exact Hfp. }
-    destruct (ext_pfx _ _ _ _ Hext Hp) as (HDp & _).
-    rewrite Hd' in HL. destruct (undelete_sh c nb w0 (e_disk ecp) ns HL HDp) as (HL2 & Hsp2 & Hunl).
-    pose proof HL as (_ & _ & _ & HN & Hmeta & _). pose proof (DIs_NoDup _ _ _ HDp) as ND.
-    split; [|split].
-    + rewrite (drel_sh_eq _ _ _ Hrel). exact HL2.
-    + intros n f p Hl Hp'. destruct (mem_name n ns) eqn:En.
-      * right. apply mem_name_spec in En. intros ps s Hm Hs.
-        assert (Eps : ps = persistent w0).
-        { destruct Hrel as (_ & M & _). rewrite M in Hm. destruct (del_disk_meta ns (e_disk ecp)) as (M1 & _).
-          rewrite <- M1, Hmeta in Hm. inversion Hm; reflexivity. }
-        subst ps. apply (Hunl n En s Hs).
-      * assert (Hin : In n X).
-        { destruct (mem_name n X) eqn:Ex; [apply mem_name_spec; exact Ex|]. exfalso.
-          destruct Hrel as (H1 & _ & _ & _ & _ & H6). destruct (lrel_lookup_some n _ _ f H1 Hl) as (g & Hg & _).
-          assert (Hpg : df_pend g = None). { apply (HN n g). rewrite (del_disk_lookup ns _ n ND), En. exact Hg. }
-          rewrite (H6 n f g Hl Hg (not_mem_name _ _ Ex)) in Hp'. congruence. }
-        apply (Hcls n f p Hin (not_mem_name _ _ En) Hl Hp').
-    + rewrite (drel_sh_eq _ _ _ Hrel), Hd'. exact Hsp2.
+  - apply (landed_post c nb A w0 e' ec ec' X ns P Hext HL); [|exact Hcls]. exists ecp. auto.
 Qed.
 
 Lemma Rd_live c nb A w0 e' ec ec' X ns defer' :
@@ -523,6 +535,50 @@ Proof.
   rewrite remove_update_comm by exact Hne. reflexivity.
 Qed.
 
+(* ---- a failed commit that changed nothing: the WAL refuses writes ---- *)
+(* equal up to dk_inited *)
+Definition deq (d' d : disk) : Prop :=
+  dk_files d' = dk_files d /\ dk_meta d' = dk_meta d /\ dk_stable d' = dk_stable d.
+
+Lemma deq_refl d : deq d d. Proof. repeat split. Qed.
+
+Lemma deq_commit_same d ps : dk_meta d = Some ps -> deq (apply_act d (ACommit ps)) d.
+Proof. intros H. split; [reflexivity|]. split; [cbn; symmetry; exact H|reflexivity]. Qed.
+
+Lemma Live_deq c nb w d d' defer : deq d' d -> Live c nb w d defer -> Live c nb w d' defer.
+Proof.
+  intros (Hf & Hm & Hs) (HL & Hst). split.
+  - apply (LInv_same c nb w (sh d) (sh d')); [unfold sh, map_files; cbn [dk_files]; rewrite Hf; reflexivity|exact Hm|exact HL].
+  - intros n f p Hl Hp. rewrite Hf in Hl. destruct (Hst n f p Hl Hp) as [K|K]; [left; exact K|right].
+    eapply unlisted_meta; [exact Hm|exact K].
+Qed.
+
+Lemma sp_of_sh_deq d d' : deq d' d -> sp_of (sh d') = sp_of (sh d).
+Proof.
+  intros (Hf & Hm & Hs). unfold sp_of. cbn [sh map_files dk_stable]. rewrite Hs. f_equal.
+  apply dread_ext; [exact Hm|]. intros ps s _ _. unfold file_ents, sh, map_files. cbn [dk_files]. rewrite Hf. reflexivity.
+Qed.
+
+Lemma RV_ext c nb w w2 d nom : st_segs w2 = st_segs w -> st_tail w2 = st_tail w -> RV c nb w d nom -> RV c nb w2 d nom.
+Proof.
+  intros Hs Ht (wc & dc & A & B & C & D & E). exists wc, dc. split; [exact A|]. split; [exact B|].
+  split; [congruence|]. split; [congruence|]. rewrite Hs. exact E.
+Qed.
+
+Lemma failed_unchanged c nb nb' w d d' nom alts defer defer' :
+  nb <= nb' -> incl defer defer' -> deq d' d -> Live c nb w d defer -> st_rotate w = None -> st_closed w = false ->
+  sp_of (sh d) = nom -> In nom alts ->
+  Mode c nb' (set_failed w) d' nom defer' /\ RD c nb' d' alts defer'.
+Proof.
+  intros Hnb Hid Hq HLive Hrot Hcl Hsp Hin.
+  assert (HL' : Live c nb' w d' defer') by (eapply Live_mono; [exact Hnb|exact Hid|]; eapply Live_deq; eauto).
+  pose proof (sp_of_sh_deq d d' Hq) as Hsp'. rewrite Hsp in Hsp'.
+  split.
+  - right. split; [exact Hcl|]. right. right. split; [reflexivity|]. split; [exact Hrot|].
+    apply (RV_ext c nb' w (set_failed w)); [reflexivity|reflexivity|]. rewrite <- Hsp'. eapply RV_of_live; exact HL'.
+  - apply (live_RD c nb' w d' alts defer' HL'). rewrite Hsp'. exact Hin.
+Qed.
+
 (* ---- StoreLogs from a live state ---- *)
 Lemma live_tail_name c nb w d t tw : LInv c nb w d -> tail_info (st_segs w) = Some t -> st_tail w = Some tw -> ws_name tw = name_of t.
 Proof.
@@ -585,11 +641,16 @@ Proof.
     assert (Hcand : forall x, x = nom \/ x = snd (step_spec nom o1) -> In x (candidates alts' defer')).
     { intros x [-> | ->]; [apply cand_alts; exact Hina|]. apply cand_alts.
       destruct (res_cases nom o1 r0 eq_refl Hres) as [(_ & Hacc)|(_ & _ & Hsnd)]; [eapply in_alts_app_op; eauto|rewrite Hsnd; exact Hina]. }
-    destruct Hfail as [(-> & Hd)|[(-> & ps & ti & Hpc & Hmeta & Hti & Hgone)|[(-> & -> & Hne & tw & Htw & Hfacts & Hrel & Hpfx)|
-                        (l0 & ls' & w1 & ec1 & tw1 & dm & ti & -> & Hreset & -> & Htw1 & Hti & _ & Hfl & Hcond & Hfacts & -> & Hdm & Hpfx & Hpfx1 & Hfresh & Hrel)]]].
+    destruct Hfail as [(-> & Hd)|[(-> & Hd)|[Hfl0|[(-> & ps & ti & Hpc & Hmeta & Hti & Hgone)|[(-> & -> & Hne & tw & Htw & Hfacts & Hrel & Hpfx)|
+                        (l0 & ls' & w1 & ec1 & tw1 & dm & ti & -> & Hreset & -> & Htw1 & Hti & _ & Hfl & Hcond & Hfacts & -> & Hdm & Hpfx & Hpfx1 & Hfresh & Hrel)]]]]].
     + (* nothing happened *)
       split; [exact Hcl|]. right. split; [discriminate|]. rewrite Hd.
       apply (live_out c (nb + 1) w d nom alts' defer'); [eapply Live_mono; [| |exact HLive]; [lia|exact Hid]|exact Hsp|exact Hina].
+    + (* the commit of the reset failed: the WAL refuses writes, the disk is as it was *)
+      split; [exact Hcl|]. right. split; [discriminate|].
+      apply (failed_unchanged c nb (nb + 1) w d (e_disk e') nom alts' defer defer' ltac:(lia) Hid); try assumption.
+      destruct Hd as [-> | ->]; [apply deq_refl|apply deq_commit_same; apply (live_meta c nb w d HL)].
+    + destruct HL' as (_ & K & _); congruence.
     + (* the reset was committed but the new tail could not be created *)
       split; [exact Hcl|]. right. split; [discriminate|].
       assert (Hmd' : dk_meta (e_disk e') = Some ps).
